@@ -316,8 +316,6 @@ class UnitRunner:
                 env["result"] = ip.eval_spec_expr(c["call"], env)
             except PyRaise as pr:
                 raised = pr.exc
-            inlined_all.update(ip.inlined)
-            self.assumptions.update(path.assumptions)
             if raised is not None:
                 ename = _exc_name(raised)
                 env["raised"] = ename
@@ -334,6 +332,8 @@ class UnitRunner:
                 env["raised"] = None
                 for i, e in enumerate(c["ensures"]):
                     ip.oblige(f"post#{i}", ip.eval_spec_expr(e, env, total=True), {"ensures": e if isinstance(e, str) else "<fn>"})
+            inlined_all.update(ip.inlined)
+            self.assumptions.update(path.assumptions)
             for i, cv in enumerate(c["covers"]):
                 if not self.cover_hits.get(cv):
                     try:
@@ -354,7 +354,8 @@ class UnitRunner:
             if self.paths_after_requires == 0:
                 status, err = "vacuous", "no path satisfies the requires clauses"
             missing = [m for m in [c["fn"], *c["must_inline"]] if m not in inlined_all and not m.startswith("spec:")]
-            if status == "ok" and missing:
+            refuted = any(o["status"] == "refuted" for o in self.obligations.values())
+            if status == "ok" and missing and not refuted:
                 status, err = "vacuous", f"function(s) under contract never executed: {missing}"
             for cv in c["covers"]:
                 if status == "ok" and not self.cover_hits.get(cv):
